@@ -701,3 +701,49 @@ pub fn overlap_program(rng: &mut Rng) -> (String, Vec<String>) {
     }
     (text, goals)
 }
+
+/// `graph_shape` for programs of structs and auto traits: the nodes are the struct names `S<k>`, an edge
+/// goes from a struct to every struct named in its field types, the start nodes are the structs named
+/// in the goal.  (Type arguments are ignored: the shape is only a key for known findings.)
+pub fn auto_shape(program_text: &str, goal_text: &str) -> &'static str {
+    fn names(s: &str) -> Vec<usize> {
+        let b = s.as_bytes();
+        let mut v = vec![];
+        let mut i = 0;
+        while i < b.len() {
+            if b[i] == b'S' && (i == 0 || !b[i - 1].is_ascii_alphanumeric()) {
+                let mut j = i + 1;
+                while j < b.len() && b[j].is_ascii_digit() {
+                    j += 1;
+                }
+                if j > i + 1 {
+                    v.push(s[i + 1..j].parse::<usize>().unwrap());
+                }
+                i = j;
+            } else {
+                i += 1;
+            }
+        }
+        v
+    }
+    // rewrite as a graph-family program and reuse graph_shape
+    let mut g = String::new();
+    for line in program_text.split(|c| c == '\n' || c == '|') {
+        let line = line.trim();
+        if let Some(rest) = line.strip_prefix("struct S") {
+            let head: usize = match rest.split(|c: char| !c.is_ascii_digit()).next().and_then(|d| d.parse().ok()) {
+                Some(h) => h,
+                None => continue,
+            };
+            let body = rest.split_once('{').map(|(_, b)| b).unwrap_or("");
+            let conds: Vec<String> = names(body).iter().map(|c| format!("N{}: G", c)).collect();
+            if conds.is_empty() {
+                g.push_str(&format!("impl G for N{} {{}}\n", head));
+            } else {
+                g.push_str(&format!("impl G for N{} where {} {{}}\n", head, conds.join(", ")));
+            }
+        }
+    }
+    let goal: Vec<String> = names(goal_text).iter().map(|c| format!("N{}: G", c)).collect();
+    graph_shape(&g, &goal.join(", "))
+}
